@@ -39,6 +39,7 @@ def parseHook (s : String) : Option Hook :=
   | ["record"] => some .record
   | ["limitF", m] => (parseRat m).map .limitF
   | ["extrude", k] => (parseRat k).map .extrude
+  | ["drop", k] => some (.drop k)
   | _ => none
 
 def parseKind : String → Option BKind
